@@ -697,11 +697,14 @@ Proof.
 Qed.
 
 (* the stream/datagram upstreams built on the two modelled transports close in an orderly way; the HTTP and
-   QUIC based ones do not (known findings K6a, K6c, K6d) *)
-Lemma up_orderly_classic k : In k [KUdp; KTcp; KTcpPipeline; KTls; KTlsPipeline] -> up_orderly k = true.
-Proof. cbn. intros [<-|[<-|[<-|[<-|[<-|[]]]]]]; reflexivity. Qed.
+   QUIC based ones did not before the K6a / K6c / K6d fixes (k6 = false) and do since (k6 = true) *)
+Lemma up_orderly_classic k6 k : In k [KUdp; KTcp; KTcpPipeline; KTls; KTlsPipeline] -> up_orderly k6 k = true.
+Proof. destruct k6; cbn; intuition (subst; reflexivity). Qed.
 
-Lemma up_orderly_refuted : up_orderly KHttps = false /\ up_orderly KH3 = false /\ up_orderly KQuic = false.
+Lemma up_orderly_all k : up_orderly true k = true.
+Proof. destruct k; reflexivity. Qed.
+
+Lemma up_orderly_refuted : up_orderly false KHttps = false /\ up_orderly false KH3 = false /\ up_orderly false KQuic = false.
 Proof. repeat split. Qed.
 
 (* ---- C18_no_leak (pipeline): an open connection is either still in the open pool, or marked closed with a
